@@ -172,6 +172,29 @@ CLAIMS = {
         tech="static analysis: attribute def-use over typed receivers, constructor-provenance of appended objects, slice-origin rebasing check, guard extraction",
         ref="DESIGN.md section 2/C19",
     ),
+    "C04": dict(
+        cat="other",
+        text="A discipline check, not a totality proof: over the type-resolved call graph from the three entry points (80+ functions) every "
+        "site of nine risk classes is enumerated and must be discharged by a listed idiom -- explicit raises (configuration-only guard, "
+        "table-agreement unreachability, re-raise), unchecked regex match results, dereferences of regex groups that do not participate in "
+        "every match (computed on the pattern syntax tree incl. the wrapper match_on_tokens adds), reads of the None-able page group, "
+        "int()/float() conversions, constant-index subscripts, literal group keys against all ~6,800 generated patterns, dynamic text in "
+        "patterns/replacement templates, metadata keys splatted into Metadata(**..).",
+        note="Not decided: exceptions from C extensions (lxml, hyperscan, diff) on hostile bytes, MemoryError/RecursionError, regex engine "
+        "limits. Default resolvers/annotator, shipped tokenizers; annotation spans within the text.",
+        tech="static analysis: path-sensitive guard dominance (None-discipline) over a typed call graph + regex-AST group participation + cross-language (Python match variable <-> pattern) agreement",
+        ref="DESIGN.md section 2/C04",
+    ),
+    "C20": dict(
+        cat="other",
+        text="clean_text is shown to be a fold carrying only the text (composition law for all step lists), unknown steps raise ValueError "
+        "before anything is applied, the lookup table agrees with the functions, each substitution cleaner is re.sub(C{n,}, R, text) of the "
+        "shape for which idempotence / no-remaining-run / content preservation follow by a two-line lemma (decided on the pattern syntax tree), "
+        "and the html cleaner queries the parsed tree unmodified with the four excluded parents, joined in document order.",
+        note="Not decided: lxml parsing / XPath evaluation on concrete trees (the visible-text clause proper).",
+        tech="static analysis: loop-carried-state check, path enumeration, regex-AST shape lemma",
+        ref="DESIGN.md section 2/C20",
+    ),
 }
 
 NA = {
@@ -190,6 +213,7 @@ ENGINES = [
     ("typed", "sa/typed.py", "one mypy build of /repo/eyecite per run: expression types keyed by position (receiver types, set types, Optional operands)"),
     ("rx", "sa/rx.py", "regex-AST engine: NFA over symbolic alphabet, Aho-Corasick product search with witness, group participation"),
     ("materialize", "sa/materialize.py", "build step: dumps the generated extractor table (patterns, flags, strings, editions) from /repo"),
+    ("guards", "sa/guards.py", "path-sensitive dominance of a use by a truthiness / not-None test (local and/ternary guards + enumerated paths)"),
     ("hashrules", "sa/hashrules.py", "equality/hash discipline of citation classes (read-sets, class tag, identity cases)"),
 ]
 
